@@ -139,6 +139,11 @@ func c16prop(r *simkit.Run) {
 	}
 	spec := exchangeSpec{rawRequest: []byte(rawReq), peerAddr: "192.0.2.7:5555", passHost: rapid.Bool().Draw(rt, "pass-host"),
 		plan: backendPlan{response: respBytes, headLen: headLen, cutAt: -1}}
+	// only with a backend that answers completely: when the round trip fails the transport waits for its writer
+	// before it reports the failure, so "the probe after the start of the response" is not a possible order then
+	if len(reqBody) > 0 && fault == "none" && len(respBytes)-headLen >= 2*lateProbeFirstPart {
+		spec.lateProbe = rapid.IntRange(0, 2).Draw(rt, "late-probe") == 0
+	}
 	bodyWire := len(respBytes) - headLen
 	switch fault {
 	case "refused":
@@ -193,6 +198,9 @@ func c16prop(r *simkit.Run) {
 		spec.clientCloseWhenBackendHasRequest = true
 	}
 	res := runExchange(spec)
+	for i := 0; i < res.lateProbes; i++ {
+		r.Fault("request-probe-after-response-start")
+	}
 	ctxt := fmt.Sprintf("[backend status %d, %d body bytes, chunked=%v, fault %s cut at %d of %d (head %d)]", status, n, chunked, fault, spec.plan.cutAt, len(respBytes), headLen)
 	if res.hung != "" {
 		r.Fail("hang", "%s %s", res.hung, ctxt)
@@ -254,7 +262,7 @@ func c16prop(r *simkit.Run) {
 			}
 		}
 		if res.bodyErr != nil || !bytes.Equal(res.body, body) {
-			r.Fail("relay-body", "client read %d bytes (err %v), backend sent %d; first difference at %d %s", len(res.body), res.bodyErr, len(body), firstDiff(res.body, body), ctxt)
+			r.Fail("relay-body", "client read %d bytes (err %v), backend sent %d; first difference at %d %s [proxy recorded %d, handler returned=%v, late probes %d, server log %q]", len(res.body), res.bodyErr, len(body), firstDiff(res.body, body), ctxt, res.recorded, res.handlerDone, res.lateProbes, res.serverLog)
 		}
 	case "refused", "close-before-head", "reset-before-head":
 		expectStatus("backend unreachable or failed before responding", 502)
